@@ -39,7 +39,11 @@ var stringRunes = []rune("abcxyzABC019 \t  #{}:=->,()*./$'\\|;<>!?@%^&+~[]`Ã©Î»ä
 
 // StringText draws the text of a quoted string: anything but '"' and line ends.
 func StringText(t *rapid.T, label string) string {
-	return string(rapid.SliceOfN(rapid.SampledFrom(stringRunes), 0, 10).Draw(t, label))
+	max := 10
+	if rapid.IntRange(0, 19).Draw(t, label+"_long") == 0 {
+		max = 90 // sizes are not narrowed: long paths and globs exist
+	}
+	return string(rapid.SliceOfN(rapid.SampledFrom(stringRunes), 0, max).Draw(t, label))
 }
 
 var commentRunes = []rune("abcxyzABC019     \t#{}:=->,()\"*./$'Ã©Î»ä¸­task")
@@ -54,7 +58,11 @@ func CommentText(t *rapid.T, label string) string {
 	case 2:
 		return " \t "
 	}
-	return string(rapid.SliceOfN(rapid.SampledFrom(commentRunes), 1, 14).Draw(t, label))
+	max := 14
+	if rapid.IntRange(0, 14).Draw(t, label+"_long") == 0 {
+		max = 120
+	}
+	return string(rapid.SliceOfN(rapid.SampledFrom(commentRunes), 1, max).Draw(t, label))
 }
 
 var cmdFirst = []rune("abcdefghijklmnopqrstuvwxyzABCDEFGHIJKLMNOPQRSTUVWXYZ")
@@ -79,6 +87,9 @@ func Command(t *rapid.T, label string) string {
 
 // ArgList draws 0..max dependencies / outputs / arguments of either kind.
 func ArgList(t *rapid.T, label string, max int) []Arg {
+	if rapid.IntRange(0, 24).Draw(t, label+"_many") == 0 {
+		max *= 4
+	}
 	n := rapid.IntRange(0, max).Draw(t, label+"_n")
 	out := make([]Arg, 0, n)
 	for i := 0; i < n; i++ {
